@@ -215,7 +215,17 @@ def edit_sm(rng, sf, nops):
             fix_sm_chart(rng, c)
         elif sf.charts:
             c = rng.choice(sf.charts)
-            c.extradata = [cc.rand_value(rng, 6) for _ in range(rng.randint(0, 3))] or None
+            if isinstance(c.extradata, list) and rng.random() < 0.5:
+                # edit the list of extra components IN PLACE (append / replace / remove)
+                q = rng.random()
+                if q < 0.4 or not c.extradata:
+                    c.extradata.append(cc.rand_value(rng, 6))
+                elif q < 0.7:
+                    c.extradata[rng.randrange(len(c.extradata))] = cc.rand_value(rng, 6)
+                else:
+                    c.extradata.pop(rng.randrange(len(c.extradata)))
+            else:
+                c.extradata = [cc.rand_value(rng, 6) for _ in range(rng.randint(0, 3))] or None
             fix_sm_chart(rng, c)
 
 
@@ -225,6 +235,7 @@ def fix_sm_chart(rng, c):
     if re_lead_hash(c.notes):
         c.notes = "0" + c.notes
     if c.extradata:
+        keep = c.extradata
         ex = []
         prev_nl = True   # the note data component ends in a line break
         for x in c.extradata:
@@ -232,7 +243,7 @@ def fix_sm_chart(rng, c):
                 x = "e" + x
             ex.append(x)
             prev_nl = x.endswith(("\n", "\r")) or (x == "" and prev_nl)
-        c.extradata = ex
+        keep[:] = ex                 # in place: the chart keeps the same list object
 
 
 def re_lead_hash(x):
@@ -301,6 +312,46 @@ def edit_ssc(rng, sf, nops):
                     c.move_to_end(rng.choice(ks))
 
 
+def tweak_after_serialize(rng, sf, fmt):
+    """serialize, make ONE small edit, (the caller serializes again): what was written before must not stick"""
+    try:
+        str(sf)
+        [str(c) for c in sf.charts]
+    except Exception:  # noqa
+        return
+    r = rng.random()
+    if fmt == "sm":
+        cs = [c for c in sf.charts]
+        if cs and r < 0.45:
+            c = rng.choice(cs)
+            if isinstance(c.extradata, list) and c.extradata:
+                q = rng.random()
+                if q < 0.5:
+                    c.extradata.append("tail" + cc.rand_value(rng, 3).replace("#", ""))
+                elif q < 0.8:
+                    c.extradata[-1] = "replaced"
+                else:
+                    c.extradata.pop()
+            else:
+                c.extradata = ["added"]
+        elif cs and r < 0.7:
+            setattr(rng.choice(cs), rng.choice(["meter", "description", "notes"]), rng.choice(["7", "d", "0001"]))
+        else:
+            sf[rng.choice(list(sf.keys()) or ["TITLE"])] = cc.rand_value(rng, 5)
+    else:
+        cs = [c for c in sf.charts if ("NOTES" in c) != ("NOTES2" in c)]
+        if cs and r < 0.4:
+            c = rng.choice(cs)                      # move the note data to the other key, same value
+            old = "NOTES" if "NOTES" in c else "NOTES2"
+            c["NOTES2" if old == "NOTES" else "NOTES"] = c.pop(old)
+        elif cs and r < 0.7:
+            c = rng.choice(cs)
+            k = rng.choice([k for k in c.keys()])
+            c[k] = rng.choice(["", "x", c.get("NOTES") or c.get("NOTES2") or ""])
+        else:
+            sf[rng.choice(list(sf.keys()) or ["TITLE"])] = cc.rand_value(rng, 5)
+
+
 def starts(fmt):
     import simfile
     from simfile.sm import SMSimfile
@@ -339,6 +390,8 @@ def c2s(ctx, fmt, ntraces, maxops):
             (edit_sm if fmt == "sm" else edit_ssc)(hrng, sf, nops - first)
         else:
             (edit_sm if fmt == "sm" else edit_ssc)(hrng, sf, nops)
+        if i % 3 == 1:
+            tweak_after_serialize(hrng, sf, fmt)
         rec, text = cc.ser_record(sf, i)
         recs.append(rec)
         meta[i] = {"mode": "c2s", "fmt": fmt, "start": name, "nops": nops, "hist_seed": hist_seed, "i": i}
@@ -391,6 +444,8 @@ def replay_c2s(case):
                 (edit_sm if fmt == "sm" else edit_ssc)(hrng, sf, case["nops"] - first)
             else:
                 (edit_sm if fmt == "sm" else edit_ssc)(hrng, sf, case["nops"])
+            if case.get("i", 0) % 3 == 1:
+                tweak_after_serialize(hrng, sf, fmt)
             return sf
     raise core.MachineryError("unknown start " + case["start"])
 
